@@ -137,9 +137,6 @@ fn check(c: &Case, ctx: &Ctx) -> Outcome {
     }
 }
 
-pub fn show_samples(samples: &[Sample]) -> String {
-    format!("{:?}", samples.iter().map(|(n, r)| (n.clone(), r.iter().map(|x| lossy(x)).collect::<Vec<_>>())).collect::<Vec<_>>())
-}
 
 // ---- refusal: different k or strand mode
 
